@@ -90,7 +90,8 @@ func init() {
 	scalars = append(scalars, strClass(strings.Repeat("x", 70)), strClass(strings.Repeat("x", 70)+"y"))
 	scalars = append(scalars, dateClass(2020, 1, 1, 0, 0, 0, 0, 0), dateClass(2020, 1, 1, 0, 0, 0, 0, 1),
 		dateClass(2020, 1, 1, 0, 0, 0, 0, 2), dateClass(2020, 1, 1, 0, 0, 1, 0, 0), dateClass(2020, 1, 2, 0, 0, 0, 0, 0),
-		dateClass(2019, 12, 31, 23, 59, 59, 999, 0), dateClass(2019, 12, 31, 23, 59, 59, 999, 255))
+		dateClass(2019, 12, 31, 23, 59, 59, 999, 0), dateClass(2019, 12, 31, 23, 59, 59, 999, 255),
+		dateClass(2020, 1, 1, 0, 0, 0, 1, 0), dateClass(2020, 1, 1, 0, 0, 0, 1, 3), dateClass(2020, 1, 1, 0, 0, 0, 2, 0))
 }
 
 // groups of neighbours around a 16-digit rounding boundary
@@ -320,8 +321,8 @@ func main() {
 				}
 				if eq && x.Hash() != y.Hash() {
 					sig := "equal-hash" + repmix
-					if repmix == "" && nodes[p[0]].isObj {
-						sig = "equal-hash:object-order"
+					if nodes[p[0]].isObj && (repmix == "" || ex == ey) {
+						sig = "equal-hash:object-order" // same members, other insertion order
 					}
 					t.Fail(sig, fmt.Sprintf("%s Equal %s but Hash %x != %x", ex, ey, x.Hash(), y.Hash()))
 				}
